@@ -602,6 +602,10 @@ func (pool *hostConnPool) connect() (err error) {
 	if err != nil {
 		return err
 	}
+	if conn == nil {
+		// the reconnection policy allows no attempt at all
+		return errors.New("gocql: no connection attempt allowed by the reconnection policy")
+	}
 
 	if pool.keyspace != "" {
 		// set the keyspace
